@@ -277,3 +277,13 @@ var trustedBase = []string{
 	"apirouter WrapHandler/ChainInterceptor call the handler only if every PreHandle returned true",
 	"os.Rename is atomic on POSIX file systems",
 }
+
+// anyBad reports whether the current rule has recorded a violated obligation.
+func (c *Ctx) anyBad(rule string) bool {
+	for _, o := range c.Obs {
+		if o.Rule == rule && o.Status == "violated" {
+			return true
+		}
+	}
+	return false
+}
